@@ -321,6 +321,7 @@ def run(run):
     shards_b, meta_b = [], []         # repair / mutate (one shard per call: own tables)
     cases_c, meta_c = [], []          # returned trees: wf_treeb / closed / eqv
     solvers = 0
+    gdefs = {}
     t_budget = time.time() + (900 if thorough else 50)
 
     for gname, gsrc, unamb, constraints in FAMILY:
@@ -334,7 +335,8 @@ def run(run):
             solvers += 1
             grammar = solver.grammar
             cg = canonical(grammar)
-            G = g_grammar(cg)
+            gdefs.setdefault(gname, f"Definition GR_{gname} : grammar := {g_grammar(cg)}.\n")
+            G = f"GR_{gname}"
             has_top = solver.top_constant.value_or(None) is not None
             random.seed(rng.randrange(1 << 30))
             fuzzer = GrammarFuzzer(grammar, max_nonterminals=6)
@@ -349,7 +351,7 @@ def run(run):
                     i = rng.randrange(len(s)); c = rng.choice(ALPHABET[gname])
                     s2 = rng.choice([s[:i] + c + s[i + 1:], s[:i] + s[i + 1:], s[:i] + c + s[i:]])
                     inputs.append((s2, None))
-            rep_left, mut_left = n_repair, n_mutate
+            rep_left, mut_left = n_repair, (n_mutate if thorough or solvers % 2 == 1 else 0)
             for s, ft in inputs:
                 key = (gname, phi, s)
                 P = first_parse(grammar, s)
@@ -535,8 +537,16 @@ def run(run):
             "&& res_eqb struct_eqb (parse_api fp ev START START true) os && "
             f"res_eqb struct_eqb (parse_api fp ev START {NT} false) on && "
             "match P with Some t => res_eqb Bool.eqb (check_tree ev t) ot | None => true end")
+    import concurrent.futures as _cf
+    _ex = _cf.ThreadPoolExecutor(max_workers=3)
+    ok_c = ("fun c : grammar * tree * str * option tree => let '(g, t, s, p) := c in "
+            "wf_treeb g t && closedb t && str_eqb (yield t) s && str_eqb (lbl t) START && "
+            "match p with Some u => eqvb t u | None => true end")
+    fut_a = _ex.submit(lib.coq_mismatches, "c18a", "Api", ok_a, cases_a, 60)
+    fut_b = _ex.submit(lib.coq_run_shards, "c18b", "Api", "fun b : bool => b", shards_b)
+    fut_c = _ex.submit(lib.coq_mismatches, "c18c", "Api", ok_c, cases_c, 80, "".join(gdefs.values()))
     try:
-        bad, dt = lib.coq_mismatches("c18a", "Api", ok_a, cases_a, shard=150)
+        bad, dt = fut_a.result()
         run.cov["coq_seconds_api"] = round(dt, 1)
         for i in bad:
             disagreements.append(dict(meta_a[i], kind="model != implementation (check/parse)"))
@@ -544,7 +554,7 @@ def run(run):
         run.violation({"kind": "correspondence-not-evaluable", "obligation": "Api.v check/parse cases", "error": str(e)[-1500:]},
                       found_input=False)
     try:
-        bad, dt = lib.coq_run_shards("c18b", "Api", "fun b : bool => b", shards_b)
+        bad, dt = fut_b.result()
         run.cov["coq_seconds_repair_mutate"] = round(dt, 1)
         for k, i in bad:
             disagreements.append(dict(meta_b[6 * k + i], kind="model != implementation (repair/mutate trace)"))
@@ -555,7 +565,7 @@ def run(run):
             "wf_treeb g t && closedb t && str_eqb (yield t) s && str_eqb (lbl t) START && "
             "match p with Some u => eqvb t u | None => true end")
     try:
-        bad, dt = lib.coq_mismatches("c18c", "Api", ok_c, cases_c, shard=200)
+        bad, dt = fut_c.result()
         run.cov["returned_trees_validated"] = len(cases_c)
         for i in bad:
             prop_fail.append({"clause": "returned / compared tree is a valid closed derivation of its string "
